@@ -563,6 +563,15 @@ func mainHistories(seed int64) [][]item {
 		for _, t := range []int64{lo - 1, lo - 2, lo - 1000, -2_000_000_000, hi + 1, hi + 2, hi + decadeTicks, 2_000_000_000, lo, lo + 1, hi, 0} {
 			its = append(its, item{kind: "t2p", t: t}, item{kind: "t2s", t: t})
 		}
+		// out-of-range ticks on (and next to) every power-of-ten boundary, 24 decades beyond each end: round prices
+		// outside the supported range
+		for k := int64(1); k <= 24; k++ {
+			for _, t := range []int64{hi + k*decadeTicks, lo - k*decadeTicks} {
+				for _, dt := range []int64{-1, 0, 1} {
+					its = append(its, item{kind: "t2p", t: t + dt}, item{kind: "t2s", t: t + dt})
+				}
+			}
+		}
 		// prices for CalculatePriceToTick: range ends, one ulp outside, far outside, negative
 		maxSpot, minSpotV2 := raw(types.MaxSpotPriceBigDec), raw(types.MinSpotPriceV2)
 		// (prices carry 36 decimals, the conversion works on 18 of them: also the last 36-decimal price that truncates
